@@ -80,6 +80,7 @@ type Hooks struct {
 	Loop   func(in *Interp, st *State, s ast.Stmt) []*State
 	Call   func(in *Interp, st *State, call *ast.CallExpr, name string, recv *T, args []*T) *T
 	Cond   func(in *Interp, st *State, cond *T) (known bool, val bool, refineTrue, refineFalse func(*State))
+	Bind   func(in *Interp, st *State, o types.Object, val *T)
 }
 
 type Interp struct {
@@ -269,7 +270,9 @@ func (in *Interp) execStmt(s ast.Stmt, st *State) []*State {
 		return []*State{st}
 	case *ast.ReturnStmt:
 		if len(x.Results) == 0 {
-			st.Ret = in.namedResults(st, in.fnStack[len(in.fnStack)-1])
+			if len(in.fnStack) > 0 {
+				st.Ret = in.namedResults(st, in.fnStack[len(in.fnStack)-1])
+			}
 		} else if len(x.Results) == 1 {
 			t := in.eval(st, x.Results[0])
 			if tup, ok := in.C.TypeOf(x.Results[0]).(*types.Tuple); ok && tup.Len() > 1 {
@@ -375,7 +378,7 @@ func (in *Interp) execIf(x *ast.IfStmt, st *State) []*State {
 	if !known || !val {
 		f := st
 		if !known {
-			f.Conds = append(f.Conds, tUn("!", cond))
+			f.Conds = append(f.Conds, notT(cond))
 			if rF != nil {
 				rF(f)
 			}
@@ -459,7 +462,7 @@ func (in *Interp) execSwitch(x *ast.SwitchStmt, st *State) []*State {
 				decided = true
 				break
 			}
-			negs = append(negs, tUn("!", c))
+			negs = append(negs, notT(c))
 		}
 		if !decided {
 			b := s0.Clone()
@@ -663,6 +666,9 @@ func (in *Interp) storeLV(st *State, l ast.Expr, lv *T, val *T) {
 			return
 		}
 		st.Vars[o] = val
+		if in.H.Bind != nil {
+			in.H.Bind(in, st, o, val)
+		}
 		return
 	}
 	if in.H.Assign != nil && in.H.Assign(in, st, l, lv, val) {
@@ -799,6 +805,17 @@ func (in *Interp) eval0(st *State, e ast.Expr) *T {
 		}
 		base := in.eval(st, x.X)
 		idx := in.eval(st, x.Index)
+		if base.Op == "var" && idx.Op == "str" {
+			if v, ok := base.Obj.(*types.Var); ok && v.Parent() == in.C.Types.Scope() {
+				if cl := in.C.mapLit(v.Name()); cl != nil && !in.C.mapMutated(v) {
+					vals, _ := in.C.stringKeyed(cl)
+					if ve, ok := vals[idx.Name]; ok {
+						return in.eval(st, ve)
+					}
+					return in.zeroOf(in.C.TypeOf(x))
+				}
+			}
+		}
 		return in.load(st, tIndex(base, idx))
 	case *ast.SliceExpr:
 		base := in.eval(st, x.X)
@@ -1243,4 +1260,11 @@ func isParamOrRecv(c *Ctx, fd *ast.FuncDecl, o types.Object) bool {
 		}
 	}
 	return false
+}
+
+func notT(t *T) *T {
+	if t.Op == "un" && t.Name == "!" {
+		return t.Args[0]
+	}
+	return tUn("!", t)
 }
